@@ -162,7 +162,8 @@ class Engine:
             self.decided[cid] = (d, cond)
             return d
         # new decision
-        if self.wall_budget_s is not None and time.time() - self._t0 > self.wall_budget_s:
+        # the budget is CPU seconds of this process (z3 runs in-process), so that what a job covers does not depend on machine load
+        if self.wall_budget_s is not None and time.process_time() - self._c0 > self.wall_budget_s:
             raise Budget()
         s = self.solver
         free = None  # polarity known feasible without a query
@@ -280,6 +281,7 @@ class Engine:
         prev = ENG
         ENG = self
         self._t0 = time.time()
+        self._c0 = time.process_time()
         self.worklist = [list(p) for p in (prefixes if prefixes is not None else [[]])]
         out = []
         try:
